@@ -112,6 +112,19 @@ def optional_untagged(ctx, chk):
         for path in ps.simple_paths(b, 0, r):
             env, conds = pe.run(path)
             untagged = any(ps.strip(ps.norm(ce)) == ("discr", ("pre", 2)) and taken == 0 for _, ce, taken, _ in conds)
+            for _, ce, taken, listed in conds:
+                c = ps.strip(ps.norm(ce))
+                if c[0] == "call" and c[2] and ps.strip(c[2][0]) == ("pre", 2):
+                    truth = (taken == "else") if listed == [0] else (taken != 0)
+                    if (c[1].endswith("Option::<T>::is_none") and truth) or (c[1].endswith("Option::<T>::is_some") and not truth):
+                        untagged = True
+            # ... or the element decoder is called with a literal `None` tag on this path
+            for bb_ in path:
+                t_ = b.blocks[bb_]["term"]
+                if t_["t"] == "call" and mirlite.callee(t_) == layout.DESER and len(t_["args"]) == 2:
+                    a_ = ps.strip(ps.norm(pe.operand(t_["args"][1], env)))
+                    if a_[0] == "agg" and str(a_[1]).endswith("Option::None"):
+                        untagged = True
             if not untagged:
                 continue
             n_none += 1
